@@ -159,13 +159,17 @@ func c05Detect(a lib.Args, r *c05Rig, res *lib.Result) error {
 		}
 	}
 	res.Note("code shape on %s: publication=%s read=%s (Model.Conc.codeVariant = %s)", r.strat, r.wstrat, r.mode, variant)
-	want := map[string]string{"old": "bypath", "current": "bypath", "proposed": "byfd"}[variant]
+	want := map[string]string{"old": "bypath", "current": "byfd"}[variant]
 	if want != r.mode || (variant == "old") != strings.HasSuffix(r.wstrat, "-old") {
 		// not a failure of the code: the constant that names the code's variant for the theorems is stale
 		res.Note("Model.Conc.codeVariant = %s does not name the shape of the binary under test (publication=%s read=%s): switch the constant", variant, r.wstrat, r.mode)
 		res.Count("variant|"+r.strat, false, "shape:variant-constant-stale")
 	}
 	res.Count("shape|"+r.strat, false, "shape:"+r.strat+":publication="+r.wstrat, "shape:"+r.strat+":read="+r.mode)
+	if r.mode == "bypath" {
+		res.Fail(lib.Failure{Kind: "correspondence", Signature: "steps:regression-variant:read-by-path:" + r.strat, What: "GetObject reads by path again (stat, attributes and open in separate path lookups: the REGRESSION variant of Model.Conc): torn answers under concurrent overwrites are back",
+			Input: map[string]interface{}{"mode": "shape", "strategy": r.strat}, Impl: "GET: " + strip(og.Steps), Model: "current variant: " + out[len(wcands)+1]})
+	}
 	if strings.HasSuffix(r.wstrat, "-old") {
 		res.Fail(lib.Failure{Kind: "correspondence", Signature: "steps:regression-variant:" + r.strat, What: "the publication steps of the code are those of the REGRESSION variant of Model.Conc (the object name is removed before the new file is linked/renamed): the window in which the key is missing is back",
 			Input: map[string]interface{}{"mode": "shape", "strategy": r.strat}, Impl: "PUT: " + strip(op.Steps), Model: "current variant: " + out[0]})
